@@ -1,36 +1,30 @@
-(* C05 -- pinned statements only (generated once by tools/pin.py from `Check`, then fixed); proofs in RcP.v *)
+(* C05 -- pinned statements only; the statement text below is the definition of RcSpec.v written out (the proof is
+   `exact`, so it is checked to be convertible with it); proofs in RcP.v (strong side) and RcWeakP.v (weak side) *)
 From Coq Require Import ZArith List Bool Lia Arith.
 Import ListNotations.
-Require Import Params StateW DisposeW Rc RcSpec RcP.
+Require Import Params StateW DisposeW Rc RcSpec RcP RcWeakP.
 Local Open Scope Z_scope.
 
-Theorem C05_monotone_tde :
-  forall (s0 : state) (sched : list (nat * list Z)) (t : nat) (rec : list Z) (s' : state) (obs : list Z),
-       run_hyps s0 sched ->
-       let s := mrun s0 sched in
-       micro s t rec = Some (s', obs) ->
-       bounded s' ->
-       forall (o : nat) (ob ob' : obj),
-       geto s o = Some ob ->
-       geto s' o = Some ob' -> destructed (word ob) = true -> destructed (word ob') = true.
-Proof. exact RcP.C05_monotone_tde. Qed.
-Print Assumptions C05_monotone_tde.
+Theorem C05_destructed_is_final :
+  forall s0 sched t rec s' obs, fresh_start s0 -> bounded_run s0 sched -> live_counted s0 sched ->
+  let s := mrun s0 sched in
+  micro s t rec = Some (s', obs) -> bounded s' ->
+  forall o ob ob', geto s o = Some ob -> geto s' o = Some ob' -> destructed (word ob) = true -> destructed (word ob') = true.
+Proof. exact RcWeakP.C05_monotone. Qed.
+Print Assumptions C05_destructed_is_final.
 
-Theorem C05_upgrade_tde :
-  forall (s0 : state) (sched : list (nat * list Z)) (t : nat) (rec : list Z) 
-         (s' : state) (obs : list Z) (x : thr) (o : nat) (c : cont) (k : list frame),
-       run_hyps s0 sched ->
-       let s := mrun s0 sched in
-       gett s t = Some x ->
-       frames x = FIncS100 o c :: k \/ frames x = FIncS101 o c :: k ->
-       micro s t rec = Some (s', obs) ->
-       forall (ob : obj) (x' : thr),
-       geto s o = Some ob ->
-       gett s' t = Some x' ->
-       (frames x' = FRet c false :: k <-> destructed (word ob) = true) /\
-       (0 < owners s o -> frames x = FIncS100 o c :: k -> frames x' = FRet c true :: k).
-Proof. exact RcP.C05_upgrade_tde. Qed.
-Print Assumptions C05_upgrade_tde.
+Theorem C05_upgrade_iff_not_destructed :
+  forall s0 sched t rec s' obs x o c k, fresh_start s0 -> bounded_run s0 sched -> live_counted s0 sched ->
+  let s := mrun s0 sched in
+  gett s t = Some x -> (frames x = FIncS100 o c :: k \/ frames x = FIncS101 o c :: k) ->
+  micro s t rec = Some (s', obs) ->
+  forall ob x', geto s o = Some ob -> gett s' t = Some x' ->
+    
+    (frames x' = FRet c false :: k <-> destructed (word ob) = true) /\
+    
+    (0 < owners s o -> frames x = FIncS100 o c :: k -> frames x' = FRet c true :: k).
+Proof. exact RcWeakP.C05_upgrade. Qed.
+Print Assumptions C05_upgrade_iff_not_destructed.
 
 Theorem C05_monotone_needs_bounds :
   ~ C05_monotone_unbounded.
